@@ -38,6 +38,65 @@ type dawgIn struct {
 	Table    bool         `json:"table"` // ask the acceptor to check the full node table (minimality, numWords)
 	Searches [][]searchIn `json:"searches"`
 	Gob      bool         `json:"gob"`
+	Life     []lifeOp     `json:"life,omitempty"` // when present: a Builder life cycle (DawgLife.tla) instead of Adds
+}
+
+// lifeOp is one call on a Builder: "add" (W), "finish", "init" (Initialise).
+type lifeOp struct {
+	Op string `json:"op"`
+	W  []int  `json:"w"`
+}
+
+func lifeKey(ops []lifeOp) string {
+	parts := make([]string, len(ops))
+	for i, o := range ops {
+		if o.Op == "add" {
+			parts[i] = "add" + wordsKey([][]int{o.W})
+		} else {
+			parts[i] = o.Op
+		}
+	}
+	return strings.Join(parts, " ")
+}
+
+// runLife executes a life-cycle script on one Builder (the zero value). After every call each Dawg returned so far is observed again.
+func runLife(w *tr.W, in dawgIn) {
+	var b dawg.Builder
+	var returned []*dawg.Dawg
+	for _, o := range in.Life {
+		switch o.Op {
+		case "add":
+			var err error
+			res := obs.Safe(func() { err = b.Add(i2b(o.W)) })
+			w.Emit(tr.E{"ev": "Add", "w": o.W, "err": err != nil, "res": res})
+		case "init":
+			w.Emit(tr.E{"ev": "Init", "res": obs.Safe(func() { b.Initialise() })})
+		case "finish":
+			var d *dawg.Dawg
+			var err error
+			res := obs.Safe(func() { d, err = b.Finish() })
+			if res != "ok" || err != nil || d == nil {
+				w.Emit(tr.E{"ev": "Finish", "err": err != nil || d == nil, "res": res, "nwords": 0, "nodes": []nodeJ{}, "table": true})
+				break
+			}
+			nodes, nw := []nodeJ{}, 0
+			res = obs.Safe(func() { nodes = nodeTable(d); nw = d.NumberOfWords() })
+			w.Emit(tr.E{"ev": "Finish", "err": false, "res": res, "nwords": nw, "nnodes": len(nodes), "nodes": nodes, "table": true})
+			for _, p := range in.Probes {
+				var id int
+				var found bool
+				res := obs.Safe(func() { id, found = d.Lookup(i2b(p)) })
+				w.Emit(tr.E{"ev": "Lookup", "w": p, "id": id, "ok": found, "res": res})
+			}
+			returned = append(returned, d)
+			continue // the Dawg just returned was observed by the Finish event itself
+		}
+		for k, d := range returned {
+			nodes, nw := []nodeJ{}, 0
+			res := obs.Safe(func() { nodes = nodeTable(d); nw = d.NumberOfWords() })
+			w.Emit(tr.E{"ev": "Old", "k": k + 1, "nwords": nw, "nodes": nodes, "res": res})
+		}
+	}
 }
 
 func b2i(b []byte) []int {
@@ -79,6 +138,9 @@ func (in dawgIn) key(prop string) string {
 		k = fmt.Sprintf("%s...(%d adds)", k[:120], len(in.Adds))
 	}
 	s := fmt.Sprintf("dawg[%s](%s)", in.Name, k)
+	if len(in.Life) > 0 {
+		s = fmt.Sprintf("dawg[%s](%s)", in.Name, lifeKey(in.Life))
+	}
 	if in.NilEmpty {
 		s += "+nilEmpty"
 	}
@@ -146,6 +208,10 @@ func buildDawg(w *tr.W, in dawgIn) (d *dawg.Dawg, ok bool) {
 }
 
 func runDawg(w *tr.W, in dawgIn, prop string) {
+	if len(in.Life) > 0 {
+		runLife(w, in)
+		return
+	}
 	d, ok := buildDawg(w, in)
 	if !ok {
 		return
@@ -360,6 +426,42 @@ func dawgFamilies(c *Ctx, prop string) []dawgIn {
 		}
 		rec(nil)
 	}
+	// Builder life cycles (DawgLife.tla): EVERY script of at most 4 (5 thorough) calls from {Add "", Add a, Add b, Add ab, Finish, Initialise}
+	if prop == "C12" {
+		calls := []lifeOp{{"add", []int{}}, {"add", []int{97}}, {"add", []int{98}}, {"add", []int{97, 98}}, {"finish", nil}, {"init", nil}}
+		maxK := 4
+		if big {
+			maxK = 5
+		}
+		var rec func(seq []lifeOp, interesting bool)
+		rec = func(seq []lifeOp, interesting bool) {
+			if interesting { // scripts without Finish / Initialise are the addseq family above
+				add(dawgIn{Name: "life", Life: append([]lifeOp{}, seq...), Probes: probesFor(ab, 2)})
+			}
+			if len(seq) == maxK {
+				return
+			}
+			for _, o := range calls {
+				rec(append(seq, o), interesting || o.Op != "add")
+			}
+		}
+		rec(nil, false)
+		for i := 0; i < 40; i++ { // longer random life cycles over {a,b,c}^<=3
+			var ops []lifeOp
+			for k := 0; k < 6+r.Intn(14); k++ {
+				switch x := r.Intn(10); {
+				case x < 7:
+					ws := randomSet(r, abc, 3, 1)
+					ops = append(ops, lifeOp{"add", ws[0]})
+				case x < 9:
+					ops = append(ops, lifeOp{"finish", nil})
+				default:
+					ops = append(ops, lifeOp{"init", nil})
+				}
+			}
+			add(dawgIn{Name: "life-random", Life: ops, Probes: probesFor(abc, 2)})
+		}
+	}
 	n1, n2 := 150, 150
 	if big {
 		n1, n2 = 1500, 1500
@@ -442,6 +544,105 @@ func dawgFamilies(c *Ctx, prop string) []dawgIn {
 		add(dawgIn{Name: "crosswd-large", Adds: sc, Probes: memberProbes(r, sc, 60), Table: false, Gob: true})
 	}
 	return fams
+}
+
+// ---- lead screening: rare, alphabet-dependent slips (e.g. an ambiguous textual register key) need far more word sets than the acceptor
+// can judge. screenLeads builds many random sets over "awkward" alphabets (ASCII digits, separators, a letter) and keeps those on which the
+// real Dawg is not even self-consistent (a stored word not found at its own position, a wrong count, a near-miss accepted). The leads carry
+// no verdict: they are added as ordinary families and judged by DawgTrace.tla like every other input. ----
+
+func screenLeads(c *Ctx, total int) (leads []dawgIn, screened int) {
+	alphabets := [][]int{
+		{48, 49, 50, 51, 97},                     // 0 1 2 3 a
+		{48, 49, 50, 57, 44},                     // 0 1 2 9 ,
+		{45, 49, 58, 59, 124, 32},                // - 1 : ; | space
+		{0, 1, 10, 48, 255},                      // NUL, SOH, LF, 0, 0xff
+		{97, 98, 99, 100},                        // a b c d
+		{48, 49, 50, 51, 52, 53, 54, 55, 56, 57}, // 0..9
+	}
+	workers := 16
+	per := total / workers
+	type found struct {
+		in   dawgIn
+		size int
+	}
+	out := make(chan []found, workers)
+	for wk := 0; wk < workers; wk++ {
+		go func(wk int) {
+			r := rand.New(rand.NewSource(c.Seed*1000 + int64(wk)))
+			var fs []found
+			for it := 0; it < per && len(fs) < 4; it++ {
+				alpha := alphabets[(it+wk)%len(alphabets)]
+				n := 20 + r.Intn(20)
+				ws := randomSet(r, alpha, 5, n)
+				bs := make([][]byte, len(ws))
+				member := map[string]int{}
+				for i, w := range ws {
+					bs[i] = i2b(w)
+					member[string(bs[i])] = i
+				}
+				bad := false
+				var probes [][]int
+				res := obs.Safe(func() {
+					d, err := dawg.New(bs)
+					if err != nil || d == nil || d.NumberOfWords() != len(ws) {
+						bad = true
+						return
+					}
+					for i, b := range bs {
+						if id, ok := d.Lookup(b); !ok || id != i {
+							bad = true
+							probes = append(probes, b2i(b))
+						}
+						variants := [][]byte{append(append([]byte{}, b...), byte(alpha[i%len(alpha)]))} // one letter more
+						if len(b) > 0 {
+							variants = append(variants, b[:len(b)-1]) // one letter less
+						}
+						for _, v := range variants {
+							if _, in := member[string(v)]; in {
+								continue
+							}
+							if _, ok := d.Lookup(v); ok {
+								bad = true
+								probes = append(probes, b2i(v))
+							}
+						}
+					}
+				})
+				if res != "ok" {
+					bad = true
+				}
+				if bad {
+					if len(probes) > 20 {
+						probes = probes[:20]
+					}
+					size := 0
+					for _, w := range ws {
+						size += len(w) + 1
+					}
+					fs = append(fs, found{dawgIn{Name: "screen-lead", Adds: ws, Probes: append(probes, ws...), Table: true, Gob: true}, size})
+				}
+			}
+			out <- fs
+		}(wk)
+	}
+	var all []found
+	for wk := 0; wk < workers; wk++ {
+		all = append(all, <-out...)
+	}
+	sort.Slice(all, func(i, j int) bool {
+		if all[i].size != all[j].size {
+			return all[i].size < all[j].size
+		}
+		return all[i].in.key("") < all[j].in.key("")
+	})
+	if len(all) > 6 {
+		all = all[:6]
+	}
+	for _, f := range all {
+		leads = append(leads, f.in)
+	}
+	return leads, per * workers
 }
 
 // ---- spec -> code replay of the DawgBuild.tla dump ----
@@ -543,6 +744,93 @@ func replayDawg(c *Ctx) (checked, steps int, mism []Mismatch) {
 	return
 }
 
+// ---- spec -> code replay of the DawgLife.tla dump ("L" lines): every transition of the life-cycle model after a shortest history ----
+
+type lifeState struct {
+	Acc  [][]int   `json:"acc"`
+	Done bool      `json:"done"`
+	Outs [][][]int `json:"outs"`
+}
+
+func replayLife(c *Ctx) (checked, steps int, mism []Mismatch) {
+	g := loadGenTag(c.Gen, "L")
+	if len(g.Trans) == 0 {
+		return
+	}
+	acts := make([]dawgAct, len(g.Trans))
+	tos := make([]lifeState, len(g.Trans))
+	for i, t := range g.Trans {
+		json.Unmarshal(t.A, &acts[i])
+		json.Unmarshal(t.T, &tos[i])
+	}
+	probes := allWords([]int{97, 98}, 2)
+	for i := range g.Trans {
+		idx := g.History(i)
+		checked++
+		var ops []lifeOp
+		why := ""
+		var b dawg.Builder
+		var returned []*dawg.Dawg
+		res := obs.Safe(func() {
+			for _, j := range idx {
+				a := acts[j]
+				var err error
+				switch a.Op {
+				case "Add":
+					ops = append(ops, lifeOp{"add", a.W})
+					err = b.Add(i2b(a.W))
+				case "Finish":
+					ops = append(ops, lifeOp{"finish", nil})
+					var d *dawg.Dawg
+					d, err = b.Finish()
+					if err == nil {
+						returned = append(returned, d)
+					}
+				default:
+					ops = append(ops, lifeOp{"init", nil})
+					b.Initialise()
+				}
+				steps++
+				if (err != nil) != a.Err {
+					why = fmt.Sprintf("%s(%v) error=%v, specification %v", a.Op, a.W, err != nil, a.Err)
+					return
+				}
+				if len(returned) != len(tos[j].Outs) {
+					why = fmt.Sprintf("%d automata returned so far, specification %d", len(returned), len(tos[j].Outs))
+					return
+				}
+				for k, d := range returned { // every Dawg returned so far still is the index of what it was built from
+					want := tos[j].Outs[k]
+					rank := map[string]int{}
+					for q, wd := range want {
+						rank[string(i2b(wd))] = q
+					}
+					if d.NumberOfWords() != len(want) {
+						why = fmt.Sprintf("returned Dawg #%d has NumberOfWords=%d, specification %d", k+1, d.NumberOfWords(), len(want))
+						return
+					}
+					for _, p := range probes {
+						id, ok := d.Lookup(i2b(p))
+						rk, member := rank[string(i2b(p))]
+						if ok != member || (member && id != rk) {
+							why = fmt.Sprintf("returned Dawg #%d: Lookup(%v)=(%d,%v), specification (%d,%v)", k+1, p, id, ok, rk, member)
+							return
+						}
+					}
+				}
+			}
+		})
+		if res != "ok" {
+			why = res
+		}
+		if why != "" {
+			in := dawgIn{Name: "tlc-life", Life: ops, Probes: probes}
+			mism = append(mism, Mismatch{Key: in.key("C12"), Why: why, Input: in})
+		}
+	}
+	return
+}
+
 func driveDawg(c *Ctx, prop string) {
 	set := tr.NewSet(c.Out, "trace", c.Shards)
 	meta := map[string]interface{}{}
@@ -567,11 +855,28 @@ func driveDawg(c *Ctx, prop string) {
 		meta["A_transitions_replayed"] = checked
 		meta["A_steps"] = steps
 		meta["A_mismatches"] = len(mism)
+		if prop == "C12" {
+			ch2, st2, m2 := replayLife(c)
+			meta["A_life_transitions_replayed"] = ch2
+			meta["A_life_steps"] = st2
+			meta["A_mismatches"] = len(mism) + len(m2)
+			mism = append(mism, m2...)
+		}
 		tr.WriteJSON(c.Out+"/replayA.json", capMismatches(mism, 25))
 	}
 	fams := dawgFamilies(c, prop)
 	if prop == "C13" {
 		fams = searchFamilies(c, fams)
+	}
+	if prop == "C12" {
+		n := 400000
+		if c.Thorough() {
+			n = 6000000
+		}
+		leads, screened := screenLeads(c, n)
+		meta["B_sets_screened_for_leads"] = screened
+		meta["B_leads"] = len(leads)
+		fams = append(fams, leads...)
 	}
 	names := map[string]int{}
 	for _, in := range fams {
